@@ -22,3 +22,15 @@ add("C07", "Hypothesis-generated declaration files vs reference dictionaries (va
     "All sixteen declaration kinds in any order with repeated names; the eleven queries are compared exactly, including int/float/str/bool typing, the later-wins rule, the lineshape-repeat error and the GeV reference width.",
     "Trusted: pbt/decref.declarations, particle package widths.",
     "DESIGN.md 4 C07")
+add("C09", "Hypothesis-generated acyclic table sets x stable sets vs recursive reference; shipped master files against an independent recursion",
+    "The recursion, per-position replacement and stable-set cut are recomputed from the AST for every mother and several stable sets per file; for the two master files every checked mother's chain is recomputed from per-line tables.",
+    "Trusted: pbt/decref.chain; for shipped files the per-line tables come from the implementation (validated by C01).",
+    "DESIGN.md 4 C09")
+add("C10", "Hypothesis-generated acyclic table sets: path count + multiset of bracket-read descriptor trees vs reference enumeration; shipped files",
+    "Length and content (as a multiset of trees read back by bracket matching) of expand_decay_modes are compared with an independent enumeration for every mother below a size bound.",
+    "Trusted: pbt/decref.paths/count_paths and the bracket reader pbt/chains.read_descriptor; names with balanced parentheses only.",
+    "DESIGN.md 4 C10")
+add("C16", "Hypothesis-generated tables x all print options; stdout parsed row-wise vs reference ordering/scaling arithmetic",
+    "Every option combination is sampled against a reference for row content, ordering (ties), factor arithmetic, refusals and non-mutation.",
+    "Trusted: the row splitter (fields separated by >=2 blanks).",
+    "DESIGN.md 4 C16")
